@@ -32,9 +32,16 @@ func TestC16(t *testing.T) {
 			baseKind = "sparse"
 			sp := memory.NewSparse()
 			n := rapid.IntRange(0, 5).Draw(t, "nbase")
+			dense := win.size >= 600 && rapid.Bool().Draw(t, "denseBase")
+			if dense {
+				n = rapid.IntRange(3, 14).Draw(t, "nbaseDense")
+			}
 			for i := 0; i < n; i++ {
 				// non-overlapping pre-fill keeps the base independent of partial-overwrite logic
 				w := rapid.IntRange(1, 8).Draw(t, "bw")
+				if dense {
+					w = rapid.IntRange(1, 120).Draw(t, "bwDense")
+				}
 				off := rapid.IntRange(0, win.size-w).Draw(t, "boff")
 				clash := false
 				for k := 0; k < w; k++ {
